@@ -5,6 +5,7 @@ func registerAll() {
 	registerWorld(netWorld{})
 	registerWorld(histWorld{})
 	registerWorld(obsWorld{})
+	registerWorld(decWorld{})
 
 	stubsEvid := []string{"FaultySigner (wrapper around the real go-cose signer)", "deterministic crypto.Signer wrapper over pool keys",
 		"sim extension profiles XP1/XP2 (thin structs over the real encoding helpers, fault switch)", "committed key pool"}
@@ -70,5 +71,25 @@ func registerAll() {
 		Assumptions: []string{"'observably unchanged' is judged through the public API (getters, Validate class, encodings, Verify verdicts), not by reflection, so an internal cache would not be reported",
 			"reference Verify verdicts come from a fresh Evidence per key decoded from a pristine copy of the message"},
 		MustProbes: []string{"virgin_call", "buf.scribble", "buf.reuse", "invalid_object", "valid_object"},
+	}
+
+	stubsDec := []string{"channel (fault injector)", "Byzantine attester (re-signs structurally damaged payloads with its own pool key)", "sim extension profiles XP1/XP2 and five struct shapes for the embedding-aware helpers", "one child process per trace"}
+	decRule := "one run = 1..4 real messages (COSE token, bare CBOR claims, JSON claims, component list in CBOR / JSON, structs serialised by the embedding-aware helpers; valid and invalid claims of both profiles and two extension profiles) x 2..8 copies, each damaged by 1..3 faults (bit flip, byte substitution, multi-byte edit, truncation, extension, padding up to 64 KiB, inflated length fields, concatenation, header surgery, splice, deep nesting of arrays / maps / tags / JSON brackets, null / empty / duplicate / type-swapped / out-of-width members at any node of the CBOR or JSON tree), half of them applied to the signed payload and re-signed by a Byzantine attester; every delivered byte string goes to all 29 decoding entry points (COSE, CBOR and JSON claims decoders and their validating twins, a reused Evidence, the per-type Unmarshal methods, extension types through PopulateStructFromCBOR/JSON, component containers, five struct shapes incl. embedded struct / embedded interface / nil interface). " +
+		"The first 30 runs of every batch are sweeps: truncation at EVERY offset and substitution of EVERY CBOR head byte (also inside the signed payload) of one message per kind x profile (every 5th value in the quick tier, all 255 in the thorough tier). "
+	props["C05"] = &propSpec{
+		ID: "C05", Worlds: []string{"W-DEC"}, QuickRuns: 2500, ThoroughRuns: 300000, Isolated: true,
+		Rule: decRule + "Whatever decodes is validated, read through every getter (components too), re-encoded to CBOR and JSON (plain and validating) and verified under one key of every kind and nil. non-trivial = a damaged message that at least one entry point still decoded; distinct = distinct hash of (message kinds, fired fault sequence)",
+		Real: commonReal, Stubs: stubsDec,
+		Assumptions: []string{"'every byte string' is sampled through the fault kinds, far more thinly than a coverage-guided fuzzer would (outside this technique, not substituted)",
+			"a fatal runtime error of the receiving child process (stack overflow) counts as a violation; death by memory exhaustion is left to C06"},
+		MustProbes: []string{"decoded_ok", "truncsweep_offsets", "headsweep_substitutions", "byz.tree", "json.member", "net.nest", "net.leninflate", "byz.resign+byz.tree"},
+	}
+	props["C06"] = &propSpec{
+		ID: "C06", Worlds: []string{"W-DEC"}, QuickRuns: 1200, ThoroughRuns: 150000, Isolated: true,
+		Rule: decRule + "Around every decode call: heap bytes allocated (runtime.MemStats.TotalAlloc delta) <= 1 MiB + 1 KiB x len(input); library statements executed (T2 yield points, load-independent) <= 5e6 + 500 x len(input); wall <= 5 s; the child runs under a 4 GiB address-space cap and its death or a 120 s hang is attributed to the journalled delivery. Messages up to ~64 KiB (padded text claims, padding faults). non-trivial and distinct as for C05",
+		Real: commonReal, Stubs: stubsDec,
+		Assumptions: []string{"TotalAlloc is measured in a single-goroutine child; runtime noise of a few KiB cannot flip a verdict against a budget of >= 1 MiB",
+			"the statement budget is a deterministic stand-in for the property's 5 s wall deadline, set orders of magnitude above what a linear decoder needs"},
+		MustProbes: []string{"decoded_ok", "net.leninflate", "net.nest", "net.pad", "net.truncate", "max_steps_in_one_call"},
 	}
 }
